@@ -9,13 +9,66 @@ CLAIMED = {
     "C01": ("static analysis: ownership/effect analysis over go/ssa (origin classification of every write into persistent types, reaching stores, parameter summaries over the module call graph) plus constructor, freeze/epoch and read-path reachability rules",
             "Decides that no memory reachable from a published root/tree/trie is written in place anywhere in the module, that the constructors licensing in-place mutation copy, that iterators handed out inside a transaction freeze it, that the write transaction works on private copies, and that the read API reaches no persistent write and no blocking operation. A necessary condition of snapshot isolation on every path; not that queries compute the right result.",
             "DESIGN.md §3.1, §4 C01"),
+    "C02": ("static analysis: CFG ordering (dominance) rules on Commit, who-may-call/who-may-close rules, call-graph reachability from Abort, ownership analysis of persistent writes",
+            "Decides the structure atomic commit rests on: one root Store per Commit inside the root-mutex region with the Load it merges, index commits before it, notifications/closes/lock release after it, the returned snapshot is the stored one; nothing reachable from Abort publishes, commits, notifies, closes or writes persistent memory; watch channels of committed state are closed only by the commit-time notify path. Necessary, not sufficient: visibility under real schedules is assumed from the single atomic store.",
+            "DESIGN.md §3.2, §4 C02"),
+    "C03": ("static analysis: guard-dominance rule and path-sensitive accounting (bounded path enumeration over the SSA CFG of writeTxnState.modify/delete)",
+            "Decides that closed-transaction and unlocked-table guards dominate all effects and return the documented errors, that every error return is preceded by compensation of the primary index and restoration of the revision counter, that no other index is touched on a rejected path, and that the rejection test is an exact inequality on the guard revision. Does not decide return values or map equivalence.",
+            "DESIGN.md §3.2, §4 C03"),
+    "C04": ("static analysis: index-family coverage (dominance), sibling agreement of the two reindex implementations, nil-sentinel contradiction rule, KeySet guard agreement, exhaustive check of the extracted escape table",
+            "Decides that every successful write path updates every index family, that the two reindex implementations remove exactly old keys not in the new set with one key transform, that key presence is never encoded as nil-ness, and that the non-unique key encoding is injective and order-preserving. Does not decide exactness/order of query results or de-duplication.",
+            "DESIGN.md §3.2, §3.6, §4 C04"),
     "C05": ("static analysis: CFG dominance / lock-region / slice data-dependence rules over go/ssa of DB.WriteTxn, Commit, registerTable; who-may-call rule for the table locks",
             "Decides the structural half of writer serialisation: root loaded after the table locks, publish inside the root-mutex region merging unlocked positions and the length of the current root, locks released only after publish and notify, and only by Commit/Abort. A necessary condition, decided on every path of the anchored functions; not the mutex itself nor fairness.",
             "DESIGN.md §3.2, §4 C05"),
+    "C06": ("static analysis: pairing rule on node replacement sites (retain-or-queue), frozen registration multiset, CFG ordering in Commit/Notify, channel-origin dataflow for the ...Watch APIs, who-may-close rule",
+            "Decides store-before-notify-before-unlock, that every replaced radix node's channel is retained or queued, that Notify closes everything queued and the root channel iff dirty, that query APIs hand out the index's own channel from the same reader call, and that nothing before Commit's notify phase can close a committed channel. Not decided: that the right node's channel is chosen for a query.",
+            "DESIGN.md §3.3, §4 C06"),
+    "C07": ("static analysis: who-may-call rule on the transaction handed to the change iterator, single-origin dataflow in refresh, shape/ordering rule on Next and its delivering closure",
+            "Decides that both sources and the watch come from the committed root of the transaction passed in (one entry, one index), that the cursors are +1, that Next has exactly its two return shapes, and that the delivering closure advances cursors and marks the tracker with exactly the revision of the change it yields, before yielding, clearing the iterator only when exhausted. Not decided: the merge order itself, convergence.",
+            "DESIGN.md §3.4, §4 C07"),
+    "C08": ("static analysis: control-dependence rules on graveyard writes and the collector's scan (facts on dominating branch edges), reference allow-list for the graveyard index constants, non-blocking-send rule",
+            "Decides that deletions go to both graveyard indexes exactly under the transaction's own tracker test with the deletion's revision, that re-insert cleans both, that the collector lowers its watermark to every tracker's revision and collects only at or below it with a deletion-revision re-check, and that graveyard indexes are unreachable from query/count paths. Not decided: liveness (eventual collection).",
+            "DESIGN.md §3.4, §4 C08"),
+    "C09": ("static analysis: path-sensitive revision accounting in modify/delete, dataflow of the stored object's revision, big-endian rule",
+            "Decides exactly-one-increment on success and zero net change on rejection/no-op, that the stored object (and the merge adapter's result) carries the post-increment revision, that Abort cannot touch it and that revision keys are big-endian. Not decided: monotonicity across commits as a history property.",
+            "DESIGN.md §3.2, §4 C09"),
+    "C10": ("static analysis: interprocedural lock-class graph, critical-section effect rule, sorted-acquire and de-duplication shape rules, Commit-or-Abort pairing on go/cfg, blocking-effect reachability",
+            "Decides an acyclic lock-class graph with the table locks outermost and only taken by the sorted, de-duplicated bulk acquire; non-blocking, user-code-free root/leaf mutex regions; library transactions that always finish and never nest; WriteTxn/Commit/Abort blocking only on the table locks and the two short mutexes; readers reaching no blocking operation; non-blocking GC triggers; the collector locking only tables with dead objects. Not decided: misuse by callers, starvation.",
+            "DESIGN.md §3.5, §4 C10"),
+    "C11": ("static analysis: ownership analysis restricted to package part, constructor/epoch/freeze rules, transaction-retirement and recycled-transaction reset rules, node-conversion completeness",
+            "Decides the persistence half: no published radix node is written in place, owning constructors copy and stamp, iterators/clones freeze, committed trees start a new epoch, a committed transaction object is retired, a recycled one is fully reset, node conversions keep the leaf. Not decided: ordered-map semantics.",
+            "DESIGN.md §3.1, §4 C11"),
+    "C12": ("static analysis: retain-or-queue pairing on node replacement, frozen registration multiset, Notify/Commit shape rules, who-may-close rule, recycled-transaction reset",
+            "Decides that every replaced/dropped node's channel is retained or queued, that Notify closes all queued channels and the root channel exactly when dirty, that dirty is set before any change, that close() on node channels happens only in Notify, and that nothing queued by an abandoned transaction leaks into the next. Not decided: which channel a lookup returns.",
+            "DESIGN.md §3.3, §4 C12"),
+    "C13": ("static analysis: ownership analysis on package lpm and lpmEntry, descent-loop sibling rule (facts on branch edges) over all LPM traversal loops",
+            "Decides the persistence half (no in-place write to published trie nodes/entries, clone gate and stamp, freeze, epoch) and that every descent loop steps into a child only after a full match of the node's prefix and never hands out a node the query diverged from. Not decided: longest-match/ordering exactness otherwise.",
+            "DESIGN.md §3.1, §3.6, §4 C13"),
+    "C14": ("static analysis: error-flow (value must reach a sink on the non-nil edge), must-pass-through in the round loop bodies, re-arm pairing in the retry queue",
+            "Decides that no operation error is dropped, every failure is queued and refreshed, a popped retry is processed, a consumed change is processed unless filtered, change/success clears, and queue-head changes re-arm the timer. Not decided: convergence within bounded periods.",
+            "DESIGN.md §3.7, §4 C14"),
+    "C15": ("static analysis: allow-list of table writes in package reconciler with control-dependence on their guards, clone provenance of status writes, gate dominance for Prune",
+            "Decides that the reconciler writes the table only by CompareAndSwap on the reconciled revision or guarded Inserts re-checked in the same write transaction, never on un-cloned objects, never deletes; that a pending status carries a fresh id; that Prune is gated on initialization and given the full snapshot. Not decided: that the guards compare the right values under every interleaving.",
+            "DESIGN.md §3.7, §4 C15"),
+    "C16": ("static analysis: bookkeeping shape rules on the retry queue (field refresh, both heaps maintained, cap, watermark source, progress source)",
+            "Decides only the structural clauses the pacing contract rests on: capped backoff, retry state forgotten on change/success, item refreshed and re-positioned in both heaps on every failure, low watermark = oldest failed revision and 0 only when empty, progress published from what run() processed. All duration clauses (minimum backoff, non-shrinking waits) are NOT decided.",
+            "DESIGN.md §4 C16"),
+    "C17": ("static analysis: ownership analysis on Map/Set values, path-sensitive migration-before-insert rule, transaction-retirement rule",
+            "Decides that the singleton pair is never mutated in place, that the singleton enters the tree before caller pairs (or the key differs), and that no Map/Set operation keeps using a transaction it published. Not decided: model exactness, representation switches, JSON/YAML round trip.",
+            "DESIGN.md §3.6, §4 C17"),
+    "C18": ("static analysis: abstract interpretation of appendEncode/encodedLength over all 256 byte values and exhaustive check of the extracted code table; dataflow of the key layout; big-endian and no-narrowing rules",
+            "Decides (exhaustively on the extracted table) that the escape code is prefix-free, order-preserving and avoids the minimal separator, that encodedLength agrees, that the composite layout and accessor offsets agree, that integer encoders are big-endian and do not narrow, and that address encoders normalise. Not decided: LPM key masking arithmetic, keys of 64 KiB and more.",
+            "DESIGN.md §3.6, §4 C18"),
+    "C19": ("static analysis: ownership analysis of the initialization record, CFG ordering of the init-channel close in Commit, shape rule on record creation/clearing, abort reachability",
+            "Decides copy-on-write of the pending list and record, a new channel only when the table has none, record cleared only when pending is empty with its channel queued, channel closed only by Commit after the root Store, Abort unable to affect it. Not decided: 'exactly when every initializer is done' as a history property.",
+            "DESIGN.md §3.2, §4 C19"),
+    "C20": ("static analysis: dataflow/shape rule on WatchSet.Wait (lock region, deferred removal over the captured result variable, select provenance of appended channels)",
+            "Decides removed = returned, returned only from channels reflect.Select chose among cases built from the set on this call, the mutex held throughout, nil result paired with the context's error. Not decided: settle-time behaviour.",
+            "DESIGN.md §3.6, §4 C20"),
 }
 
 NOT_APPLICABLE = {
-    "C16": "every clause is a bound on run-time durations, monotonicity of computed waits, or a relation between revisions observed at run time; no structural necessary condition beyond timer re-arming, which is decided under C14",
 }
 
 PENDING_REASON = "check not built yet in this round (planned rules: DESIGN.md §4); not claimed until its rules run clean on the unchanged tree"
